@@ -107,3 +107,11 @@ pub mod prelude {
 pub mod rng;
 #[doc(hidden)]
 pub mod test_util;
+
+/// Verification hooks (only compiled with `--cfg rten_verif`): re-exports of
+/// crate-private items so an external harness can call them directly.
+#[cfg(rten_verif)]
+#[doc(hidden)]
+pub mod verif {
+    pub use crate::overlap::{is_contiguous, may_have_internal_overlap};
+}
